@@ -47,3 +47,80 @@ package authgrants
 //@           let g = m.agMap[i.TargetUsername][i.DelegateCert.PublicKey][n] in
 //@           g.GrantType == i.GrantType && same(g.StartTime, i.StartTime) && same(g.ExpTime, i.ExpTime) &&
 //@           same(g.AssociatedData.CommandGrantData.Cmd, i.AssociatedData.CommandGrantData.Cmd) && g.PrincipalID == p))
+
+// ===========================================================================
+// C06: nothing is delegated without the principal approving that exact intent
+// ===========================================================================
+// Message I/O and the two application callbacks are assumed contracts: they change only the connection / what they own.
+//@ func WriteIntentDenied(w io.Writer, reason string) (err error)
+//@   assume message writer (encoding: C18)
+//@   modifies opaque(w)
+//@ func WriteIntentConfirmation(w io.Writer) (err error)
+//@   assume message writer (encoding: C18)
+//@   modifies opaque(w)
+//@ func WriteIntentCommunication(w io.Writer, i Intent) (err error)
+//@   assume message writer (encoding: C18)
+//@   modifies opaque(w)
+//@ func (m *AgMessage) ReadFrom(r io.Reader) (n int64, err error)
+//@   assume message reader (decoding: C11 / C18): fills the message
+//@   modifies *m, opaque(r)
+// a reply is accepted only if it is a denial or a confirmation
+//@ func ReadConfOrDenial(r io.Reader) (m AgMessage, err error)
+//@   property C06
+//@   modifies opaque(r)
+//@   ensures err == nil ==> m.MsgType == authgrants.IntentDenied || m.MsgType == authgrants.IntentConfirmation
+//@ func ReadIntentCommunication(r io.Reader) (i Intent, err error)
+//@   assume message reader (decoding: C11 / C18)
+//@   modifies opaque(r)
+//@ func authgrants.principalInstance.checkIntent(i Intent, c *certs.Certificate) (err error)
+//@   assume application callback: the principal's approval decision (asks the user); changes nothing here
+//@   pure
+//@ func authgrants.principalInstance.setUpTargetConn(u core.URL, cb AdditionalVerifyCallback) (c net.Conn, err error)
+//@   assume application callback: dials the target and runs the handshake, calling cb on the target's certificate; it succeeds only if cb accepted (transport.certificateParserAndVerifier, C01); it may set p.targetCert through cb
+//@   modifies *
+//@ func (i *Intent) TargetURL() (u core.URL)
+//@   assume pure accessor (formats host, port, user)
+//@   pure
+//@ func authgrants.targetInstance.checkIntent(i Intent, c *certs.Certificate) (err error)
+//@   assume application callback: the target's policy decision
+//@   pure
+//@ func authgrants.targetInstance.addAuthGrant(i *Intent) (err error)
+//@   assume application callback: stores the grant (hopserver.AddAuthGrant, C07)
+//@   modifies opaque(i)
+
+// Principal: an intent is forwarded only after approval - by the callback directly for a request on a connected
+// target, or (first request) by a target setup that succeeded, which runs the callback inside the handshake;
+// what is forwarded is the request's intent; exactly one answer goes to the delegate; a confirmation only after the
+// target answered, without error, something other than a denial.
+//@ func (p *principalInstance) doIntentRequestChecks(i Intent) (err error)
+//@   property C06
+//@   ensures called(authgrants.WriteIntentCommunication) && old(p.targetConnected) ==>
+//@        called(authgrants.principalInstance.checkIntent) && resultof(authgrants.principalInstance.checkIntent, err) == nil &&
+//@        argof(authgrants.principalInstance.checkIntent, c) == old(p.targetCert) && seqof(authgrants.principalInstance.checkIntent) < seqof(authgrants.WriteIntentCommunication)
+//@   ensures called(authgrants.WriteIntentCommunication) && !old(p.targetConnected) ==>
+//@        called(authgrants.principalInstance.setUpTargetConn) && resultof(authgrants.principalInstance.setUpTargetConn, err) == nil &&
+//@        seqof(authgrants.principalInstance.setUpTargetConn) < seqof(authgrants.WriteIntentCommunication)
+//@   ensures callcount(authgrants.WriteIntentCommunication) <= 1
+// what is forwarded is, field for field, the intent of this request - the one the callback saw
+//@   ensures called(authgrants.WriteIntentCommunication) ==> same(argof(authgrants.WriteIntentCommunication, i), i)
+//@   ensures called(authgrants.principalInstance.checkIntent) ==> same(argof(authgrants.principalInstance.checkIntent, i), i)
+//@   ensures callcount(authgrants.WriteIntentDenied) + callcount(authgrants.WriteIntentConfirmation) == 1
+//@   ensures called(authgrants.WriteIntentConfirmation) ==> called(authgrants.WriteIntentCommunication) && resultof(authgrants.WriteIntentCommunication, err) == nil &&
+//@        called(authgrants.ReadConfOrDenial) && resultof(authgrants.ReadConfOrDenial, err) == nil && resultof(authgrants.ReadConfOrDenial, m).MsgType == authgrants.IntentConfirmation &&
+//@        seqof(authgrants.WriteIntentCommunication) < seqof(authgrants.ReadConfOrDenial) && seqof(authgrants.ReadConfOrDenial) < seqof(authgrants.WriteIntentConfirmation)
+
+// Target: a confirmation is sent only if the policy accepted the intent AND the grant was stored; one answer per message.
+//@ func (t *targetInstance) handleIntentCommunication() (err error)
+//@   property C06
+//@   ensures called(authgrants.WriteIntentConfirmation) ==> called(authgrants.targetInstance.checkIntent) && resultof(authgrants.targetInstance.checkIntent, err) == nil &&
+//@        called(authgrants.targetInstance.addAuthGrant) && resultof(authgrants.targetInstance.addAuthGrant, err) == nil &&
+//@        seqof(authgrants.targetInstance.checkIntent) < seqof(authgrants.targetInstance.addAuthGrant) && seqof(authgrants.targetInstance.addAuthGrant) < seqof(authgrants.WriteIntentConfirmation)
+//@   ensures resultof(authgrants.ReadIntentCommunication, err) == nil ==> callcount(authgrants.WriteIntentDenied) + callcount(authgrants.WriteIntentConfirmation) == 1
+//@   ensures resultof(authgrants.ReadIntentCommunication, err) != nil ==> !called(authgrants.WriteIntentConfirmation) && !called(authgrants.targetInstance.addAuthGrant)
+
+// The approval closure handed to the target setup: it returns exactly the approval callback's verdict on the target's
+// certificate and writes nothing to the delegate itself (the one answer is written by doIntentRequestChecks).
+//@ func (p *principalInstance) doIntentRequestChecks$1(cert *certs.Certificate) (err error)
+//@   property C06
+//@   ensures callcount(authgrants.principalInstance.checkIntent) == 1 && err == resultof(authgrants.principalInstance.checkIntent, err) &&
+//@        argof(authgrants.principalInstance.checkIntent, c) == cert && !called(authgrants.WriteIntentDenied) && !called(authgrants.WriteIntentConfirmation)
